@@ -24,6 +24,12 @@ def interstitial_pool(ck, rng, n, random_frac=0.6, dims=(2, 3), names=None, forc
             for nm in (rot_names if n >= 20 else rng.sample(rot_names, min(2, len(rot_names)))):
                 crys, chem = gen.named(nm)
                 yield nm + "~perm", gen.shuffled(crys, rng), chem
+            if 2 in dims:
+                # 2-D sites on a mirror LINE that is oblique to the Cartesian axes (eigen-analysis of 2-D mirrors, 2-D tensor
+                # bases): rigidly rotated rectangular / square cells, and a centred rectangular cell
+                for nm in ("rect-polar2d", "sq-x4"):
+                    crys, chem = gen.named(nm)
+                    yield nm + "~rot2d", gen.rotated(crys, gen.rotation([0, 0, 1], rng.choice([17, 30, 45, 73]))), chem
             if 3 in dims:
                 # sites whose site symmetry is a single mirror, in Cartesian frames where the mirror normal is neither along
                 # an axis nor in a coordinate plane (vectlist / VectorBasis branches on the components of the normal)
